@@ -309,6 +309,27 @@ void run_struct(mon::Rng& rng)
         else compare("load-whole-struct", got, n_load_ok);
       }
       {
+        // unwrapping the whole struct in place (no intermediate tainted copy): every field as in the load above
+        mon::ctx("%s/unwrap-in-place | off=%llu round %d", sn, (unsigned long long)off, round);
+        S got{}, got2{}, want{};
+        bool ab = mon::aborts([&] { got = (*p).UNSAFE_unverified(); got2 = (*p).unverified_safe_because("monitor"); });
+        mon::evals();
+        if (ab) report(sn, "unwrap-volatile-struct-in-place", "spurious-abort", sn);
+        else {
+          want = expect.UNSAFE_unverified();
+          std::string why;
+          auto cmp = [&](const S& g, const char* api) {
+            Tr::for_plain_pairs(g, want, [&](const char* name, const auto& gl, const auto& wl) {
+              if (std::memcmp(&gl, &wl, sizeof gl) != 0 && why.empty()) why = mon::fmt("%s: field %s differs from the field-wise load of the same image", api, name);
+            });
+          };
+          cmp(got, "UNSAFE_unverified()");
+          cmp(got2, "unverified_safe_because()");
+          if (!why.empty()) report(sn, "unwrap-volatile-struct-in-place", "field-not-marshalled-faithfully", mon::fmt("%s (%s): %s", sn, Cfg::name, why.c_str()));
+          else n_load_ok++;
+        }
+      }
+      {
         mon::ctx("%s/copy_and_verify | round %d", sn, round);
         tainted<S, Sbx> got;
         bool ab = mon::aborts([&] { p.copy_and_verify([&](std::unique_ptr<tainted<S, Sbx>> v) { got = *v; return 0; }); });
